@@ -118,25 +118,22 @@ def Bucket.pathLen (b : Bucket) : Nat := b.path.length
 /-- the bucket-name index key  joinBucketPath(bucketNameBucket, path) -/
 def indexKey (path : Bytes) : Bytes := join [tag, path]
 
-/-- The lookup of TopLevelBucket / Bucket (AS WRITTEN, unfixed):
-      _, err := ldb.Get(key)
-      if !readOnly && err == ErrNotFound { if v, _ := b.Get(key); v != nil { err = nil } } -/
-def Tx.hasBucketKey (tx : Tx) (key : Bytes) : Bool :=
-  match tx.db.get key with
-  | some _ => true
-  | none => !tx.readOnly && (tx.b.get key).1.isSome
-
-/-- The existence test of CreateTopLevelBucket / NewBucket (AS WRITTEN, unfixed):
-      _, err := ldb.Get(key); if err == nil { _, deleted := b.Get(key); if !deleted { exist } } -/
-def Tx.createBlocked (tx : Tx) (key : Bytes) : Bool :=
-  match tx.db.get key with
-  | some _ => !(tx.b.get key).2
-  | none => false
+/-- transaction.bucketExists — the lookup shared by TopLevelBucket / Bucket / FetchBucket and
+    the existence test of CreateTopLevelBucket / NewBucket:
+      _, err := ldb.Get(key); exists := err == nil
+      if !readOnly { v, deleted := b.Get(key); if deleted { exists = false } else if v != nil { exists = true } } -/
+def Tx.bucketExists (tx : Tx) (key : Bytes) : Bool :=
+  let found := (tx.db.get key).isSome
+  if tx.readOnly then found
+  else match tx.b.get key with
+    | (_, true) => false
+    | (some _, false) => true
+    | (none, false) => found
 
 /-- transaction.TopLevelBucket -/
 def Tx.topLevelBucket (tx : Tx) (name : Bytes) : Option Bucket :=
   let bucketPath := join [topDepth, name]
-  if tx.hasBucketKey (indexKey bucketPath) then some { name := name, path := bucketPath, depth := 1 } else none
+  if tx.bucketExists (indexKey bucketPath) then some { name := name, path := bucketPath, depth := 1 } else none
 
 /-- transaction.CreateTopLevelBucket -/
 def Tx.createTopLevelBucket (tx : Tx) (name : Bytes) : Except Err (Tx × Bucket) :=
@@ -145,7 +142,7 @@ def Tx.createTopLevelBucket (tx : Tx) (name : Bytes) : Except Err (Tx × Bucket)
   else
     let bucketPath := join [topDepth, name]
     let key := indexKey bucketPath
-    if tx.createBlocked key then .error .exist
+    if tx.bucketExists key then .error .exist
     else .ok ({ tx with b := tx.b.put key name }, { name := name, path := bucketPath, depth := 1 })
 
 /-- transaction.DeleteTopLevelBucket -/
@@ -165,7 +162,7 @@ def Bucket.subBucket (b : Bucket) (name : Bytes) : Except Err Bucket :=
 def Bucket.bucket (tx : Tx) (b : Bucket) (name : Bytes) : Option Bucket :=
   match b.subBucket name with
   | .error _ => none
-  | .ok sub => if tx.hasBucketKey (indexKey sub.path) then some sub else none
+  | .ok sub => if tx.bucketExists (indexKey sub.path) then some sub else none
 
 /-- levelBucket.NewBucket -/
 def Bucket.newBucket (tx : Tx) (b : Bucket) (name : Bytes) : Except Err (Tx × Bucket) :=
@@ -174,7 +171,7 @@ def Bucket.newBucket (tx : Tx) (b : Bucket) (name : Bytes) : Except Err (Tx × B
     | .error e => .error e
     | .ok sub =>
       let key := indexKey sub.path
-      if tx.createBlocked key then .error .exist
+      if tx.bucketExists key then .error .exist
       else .ok ({ tx with b := tx.b.put key name }, sub)
 
 /-- the read-your-writes filter applied to each committed entry met by BucketNames / GetByPrefix:
